@@ -22,7 +22,8 @@ def cells(tier):
                   outcomes=["ret"])
         out.append(cell(f"s{size} named x,y reuse-x dup-y", sc, MON))
         sc = scen(pool(size), [[M("M", 2, 1, stars=1)], [M("N", 1, 1, stars=2)], [M("O", 1, 1)], [CALL, A("A", 1)]], outcomes=["ret"])
-        out.append(cell(f"s{size} starmaps call A1", sc, MON))
+        if not (q and size == "inf"):
+            out.append(cell(f"s{size} starmaps call A1", sc, MON))
         sc = scen(pool(size, "SimpleTaskPool"), [[S("S", 2), S("T", 1)], [cgroup("S"), S("U", 1)]], outcomes=["ret"])
         out.append(cell(f"simple s{size} S2,T1|cgroupS,U1", sc, MON))
     for size in [1, 2]:
